@@ -57,7 +57,8 @@ def distance(bw, metric='euclidean2'):
         f[bw] = len(f.shape)*max(f.shape)**2+1
         _distance.dt(f, None)
     else:
-        f.fill(f.size*2)
+        # "infinity": larger than the largest squared distance inside the array
+        f.fill(sum(s*s for s in f.shape)+1)
         Bc = np.ones([3 for _ in bw.shape], bool)
         _morph.distance_multi(f, bw, Bc)
     if metric == 'euclidean':
